@@ -1,4 +1,5 @@
-import RoaringModel.Bitmap
+import RoaringModel.Ser
+import RoaringModel.Treemap
 /-!
 # `Safe_*` — the arithmetic side conditions of the Rust code, as decidable predicates over the model (C16)
 
@@ -320,4 +321,445 @@ def Safe_interLenBitmap (a b : BStore) : Prop := U64 (a.interLenBitmap b)   -- :
 instance (a b : BStore) : Decidable (Safe_interLenBitmap a b) := by unfold Safe_interLenBitmap; infer_instance
 
 end BStore
+/-! ## `ArrayStore` (roaring/src/bitmap/store/array_store/mod.rs) -/
+namespace Arr
+
+/-- `pos_start` / `pos_end` of `insert_range` (:94-99) and `remove_range` (:143-148); the same expressions as in
+    `Arr.insertRange` / `Arr.removeRange` -/
+def rangePos (v : List Nat) (s e : Nat) : Nat × Nat :=
+  let ps := (bsearch v s).2
+  let pe := ps + (match bsearch (v.drop ps) e with
+    | (true, x) => x + 1
+    | (false, x) => x)
+  (ps, pe)
+
+/-- array_store/mod.rs:85-87 `insert`, :134-136 `remove`: the position handed to `Vec::insert` is `≤ len`, the one
+    handed to `Vec::remove` is `< len` (this is std's `binary_search` contract; the model's `bsearch` satisfies it) -/
+def Safe_bsearch (v : List Nat) (x : Nat) : Prop :=
+  (bsearch v x).2 ≤ v.length                             -- :86 `self.vec.insert(loc, index)` on `Err(loc)`
+  ∧ ((bsearch v x).1 = true → (bsearch v x).2 < v.length) -- :135 `self.vec.remove(loc)` on `Ok(loc)`
+
+instance (v : List Nat) (x : Nat) : Decidable (Safe_bsearch v x) := by unfold Safe_bsearch; infer_instance
+
+/-- array_store/mod.rs:89-107 `insert_range` -/
+def Safe_insertRange (v : List Nat) (s e : Nat) : Prop :=
+  let ps := (rangePos v s e).1; let pe := (rangePos v s e).2
+  ps ≤ v.length                    -- :96 `self.vec[pos_start..]`
+  ∧ ps ≤ pe ∧ pe ≤ v.length        -- :104 `self.vec.splice(pos_start..pos_end, …)`
+  ∧ s ≤ e                          -- :106 `end as u64 - start as u64`
+  ∧ pe - ps ≤ e - s + 1            -- :106 `… + 1 - dropped.len() as u64` (`dropped.len() = pos_end - pos_start`)
+
+instance (v : List Nat) (s e : Nat) : Decidable (Safe_insertRange v s e) := by unfold Safe_insertRange; infer_instance
+
+/-- array_store/mod.rs:138-151 `remove_range` -/
+def Safe_removeRange (v : List Nat) (s e : Nat) : Prop :=
+  let ps := (rangePos v s e).1; let pe := (rangePos v s e).2
+  ps ≤ v.length                    -- :145 `self.vec[pos_start..]`
+  ∧ ps ≤ pe ∧ pe ≤ v.length        -- :149 `self.vec.drain(pos_start..pos_end)`, :150 `pos_end - pos_start`
+
+instance (v : List Nat) (s e : Nat) : Decidable (Safe_removeRange v s e) := by unfold Safe_removeRange; infer_instance
+
+/-- array_store/mod.rs:153-156 `remove_smallest`, :158-160 `remove_biggest`.  NOT implied by `Arr.Inv`: it is the
+    callers' obligation (`Container.Safe_removeSmallest`, `Bitmap.Safe_removeSmallest`). -/
+def Safe_removeN (v : List Nat) (n : Nat) : Prop :=
+  n ≤ v.length   -- :154 `rotate_left(n as usize)` (panics when `mid > len`), :155 :159 `self.vec.len() - n as usize`
+
+instance (v : List Nat) (n : Nat) : Decidable (Safe_removeN v n) := by unfold Safe_removeN; infer_instance
+
+/-- array_store/mod.rs:166-181 `contains_range` -/
+def Safe_containsRange (v : List Nat) (s e : Nat) : Prop :=
+  s ≤ e                                                  -- :169 `end - start` (u16)
+  ∧ 1 ≤ (bsearch v s).2 + (e - s + 1)                    -- :180 `start_i + range_count - 1` (`Vec::get` is total)
+
+instance (v : List Nat) (s e : Nat) : Decidable (Safe_containsRange v s e) := by unfold Safe_containsRange; infer_instance
+
+/-- array_store/mod.rs:224-232 `to_bitmap_store`: indexing / shifts of the loop, and the `unwrap()` inside
+    `BitmapStore::from_unchecked` in a debug build (bitmap_store.rs:99) -/
+def Safe_toBitmap (v : List Nat) : Prop :=
+  (∀ i ∈ v, wkey i < 1024 ∧ wbit i < 64)                                   -- :229 `bits[key(index)] |= 1 << bit(index)`
+  ∧ (BStore.tryFrom v.length (Store.arrToBitmapBits v)).isSome = true       -- :231 → bitmap_store.rs:99 `try_from(len, bits).unwrap()`
+
+instance (v : List Nat) : Decidable (Safe_toBitmap v) := by unfold Safe_toBitmap; infer_instance
+
+end Arr
+
+/-! ## `Store` / `Container` (store/mod.rs, container.rs) -/
+namespace Store
+
+def Safe_insert : Store → Nat → Prop
+  | .array v, i => Arr.Safe_bsearch v i
+  | .bitmap b, i => b.Safe_insert i
+instance (st : Store) (i : Nat) : Decidable (Safe_insert st i) := by unfold Safe_insert; split <;> infer_instance
+
+def Safe_remove : Store → Nat → Prop
+  | .array v, i => Arr.Safe_bsearch v i
+  | .bitmap b, i => b.Safe_remove i
+instance (st : Store) (i : Nat) : Decidable (Safe_remove st i) := by unfold Safe_remove; split <;> infer_instance
+
+/-- store/mod.rs `insert_range` (after the `range.is_empty()` early return) -/
+def Safe_insertRange : Store → Nat → Nat → Prop
+  | .array v, s, e => Arr.Safe_insertRange v s e
+  | .bitmap b, s, e => b.Safe_insertRange s e
+instance (st : Store) (s e : Nat) : Decidable (Safe_insertRange st s e) := by unfold Safe_insertRange; split <;> infer_instance
+
+def Safe_removeRange : Store → Nat → Nat → Prop
+  | .array v, s, e => Arr.Safe_removeRange v s e
+  | .bitmap b, s, e => b.Safe_removeRange s e
+instance (st : Store) (s e : Nat) : Decidable (Safe_removeRange st s e) := by unfold Safe_removeRange; split <;> infer_instance
+
+def Safe_containsRange : Store → Nat → Nat → Prop
+  | .array v, s, e => Arr.Safe_containsRange v s e
+  | .bitmap b, s, e => b.Safe_containsRange s e
+instance (st : Store) (s e : Nat) : Decidable (Safe_containsRange st s e) := by unfold Safe_containsRange; split <;> infer_instance
+
+/-- array_store/mod.rs:251-256 `rank` (`i as u64 + 1` with `i < len`: no condition), bitmap_store.rs:317 -/
+def Safe_rank : Store → Nat → Prop
+  | .array _, _ => True
+  | .bitmap b, i => b.Safe_rank i
+instance (st : Store) (i : Nat) : Decidable (Safe_rank st i) := by unfold Safe_rank; split <;> infer_instance
+
+/-- array_store/mod.rs:258 `select` (`Vec::get`: total), bitmap_store.rs:324 -/
+def Safe_select : Store → Nat → Prop
+  | .array _, _ => True
+  | .bitmap b, n => b.Safe_select n
+instance (st : Store) (n : Nat) : Decidable (Safe_select st n) := by unfold Safe_select; split <;> infer_instance
+
+end Store
+
+namespace Container
+
+/-- container.rs:59-69 `insert_range` on a non-empty range: :61 `range.len() as u64` (`ExactSizeIterator::len` of a
+    `RangeInclusive<u16>`: `e - s + 1 ≤ 65536` fits `usize`), :63 `to_bitmap_store`, :66 the store-level call -/
+def Safe_insertRange (c : Container) (s e : Nat) : Prop :=
+  s ≤ e ∧ e - s + 1 ≤ 65536                                     -- :61
+  ∧ (match c.store with
+     | .array v =>
+       if e - s + 1 > ARRAY_LIMIT then Arr.Safe_toBitmap v ∧ (Store.arrToBitmap v).Safe_insertRange s e   -- :63 :66
+       else Arr.Safe_insertRange v s e                                                                  -- :66
+     | .bitmap b => b.Safe_insertRange s e)                                                             -- :66
+
+instance (c : Container) (s e : Nat) : Decidable (Safe_insertRange c s e) := by
+  unfold Safe_insertRange; split <;> infer_instance
+
+/-- container.rs:110-123 `remove_smallest` -/
+def Safe_removeSmallest (c : Container) (n : Nat) : Prop :=
+  match c.store with
+  | .bitmap b =>
+    n ≤ b.len                                                   -- :113 :114 `bits.len() - n`
+    ∧ (if b.len - n ≤ ARRAY_LIMIT then b.Safe_toArray           -- :115 the values pushed by `bits.iter()` are `u16`s
+       else b.Safe_removeSmallest n)                            -- :118
+  | .array v => Arr.Safe_removeN v n                            -- :121
+
+instance (c : Container) (n : Nat) : Decidable (Safe_removeSmallest c n) := by
+  unfold Safe_removeSmallest; split <;> infer_instance
+
+/-- container.rs:125-138 `remove_biggest` -/
+def Safe_removeBiggest (c : Container) (n : Nat) : Prop :=
+  match c.store with
+  | .bitmap b =>
+    n ≤ b.len                                                   -- :128 :129 :130 `bits.len() - n`
+    ∧ (if b.len - n ≤ ARRAY_LIMIT then b.Safe_toArray           -- :130
+       else b.Safe_removeBiggest n)                             -- :133
+  | .array v => Arr.Safe_removeN v n                            -- :136
+
+instance (c : Container) (n : Nat) : Decidable (Safe_removeBiggest c n) := by
+  unfold Safe_removeBiggest; split <;> infer_instance
+
+/-- container.rs:177-190 `ensure_correct_store`: :181 `to_array_store`, :186 `to_bitmap_store` -/
+def Safe_ensureCorrectStore (c : Container) : Prop :=
+  match c.store with
+  | .bitmap b => b.len ≤ ARRAY_LIMIT → b.Safe_toArray
+  | .array v => v.length > ARRAY_LIMIT → Arr.Safe_toBitmap v
+
+instance (c : Container) : Decidable (Safe_ensureCorrectStore c) := by
+  unfold Safe_ensureCorrectStore; split <;> infer_instance
+
+end Container
+
+/-! ## `RoaringBitmap` (roaring/src/bitmap/inherent.rs, util.rs, serialization.rs, statistics.rs) -/
+namespace Bitmap
+
+/-- bitmap/util.rs:6-8 `split`: `(value >> 16) as u16` is lossless (`value as u16` truncates on purpose) -/
+def Safe_split (v : Nat) : Prop := U16 (hi16 v)
+instance (v : Nat) : Decidable (Safe_split v) := by unfold Safe_split; infer_instance
+
+/-- bitmap/util.rs:13-15 `join`: `(u32::from(high) << 16) + u32::from(low)` (shift amount 16 < 32; no bit lost; no carry out) -/
+def Safe_join (k i : Nat) : Prop := U32 (k <<< 16) ∧ U32 (join k i)
+instance (k i : Nat) : Decidable (Safe_join k i) := by unfold Safe_join; infer_instance
+
+/-- inherent.rs:205-213 `find_container_by_key`: the returned index is valid for the updated vector
+    (:191 :194 `insert`, :248 :263 :272 `insert_range`: `self.containers[index]`), and `Vec::insert(loc, …)` gets `loc ≤ len` -/
+def Safe_findContainerByKey (b : Bitmap) (key : Nat) : Prop :=
+  (search b key).2 ≤ b.length                                              -- :193 :209 `self.containers.insert(loc, …)`
+  ∧ (findContainerByKey b key).2 < (findContainerByKey b key).1.length     -- `self.containers[loc]` afterwards
+
+instance (b : Bitmap) (key : Nat) : Decidable (Safe_findContainerByKey b key) := by
+  unfold Safe_findContainerByKey; infer_instance
+
+/-- `binary_search_by_key` results used as indices: `Ok(loc)` is `< len` (:352 :353 :354 `remove`, :426 `contains`,
+    :466 :471 `contains_range`, :529 `range_cardinality`, :699 `rank`), `Err(i)` is `≤ len` (:542, :702 `containers[..i]`) -/
+def Safe_search (b : Bitmap) (key : Nat) : Prop :=
+  (search b key).2 ≤ b.length ∧ ((search b key).1 = true → (search b key).2 < b.length)
+
+instance (b : Bitmap) (key : Nat) : Decidable (Safe_search b key) := by unfold Safe_search; infer_instance
+
+/-- inherent.rs:230-275 `insert_range`: the `u64` counter (:263 :272 `inserted += …`; partial sums are monotone) -/
+def Safe_insertRangeCount (b : Bitmap) (lo hi : Bound) : Prop := U64 (insertRange b lo hi).2
+
+instance (b : Bitmap) (lo hi : Bound) : Decidable (Safe_insertRangeCount b lo hi) := by
+  unfold Safe_insertRangeCount; infer_instance
+
+/-- inherent.rs:379-407 `remove_range`: the `u64` counter (:398 `removed += …`) -/
+def Safe_removeRangeCount (b : Bitmap) (lo hi : Bound) : Prop := U64 (removeRange b lo hi).2
+
+instance (b : Bitmap) (lo hi : Bound) : Decidable (Safe_removeRangeCount b lo hi) := by
+  unfold Safe_removeRangeCount; infer_instance
+
+/-- inherent.rs:451-490 `contains_range` -/
+def Safe_containsRange (b : Bitmap) (lo hi : Bound) : Prop :=
+  match convertRange u32Max lo hi with
+  | .error _ => True
+  | .ok (start, en) =>
+    let sh := hi16 start; let sl := lo16 start
+    let eh := hi16 en; let el := lo16 en
+    sh ≤ eh                                             -- :462 `debug_assert!(start_high <= end_high)`, :474 `end_high - start_high`
+    ∧ Safe_search b sh                                  -- :466 `&self.containers[i..]`
+    ∧ (match search b sh with
+       | (false, _) => True
+       | (true, i) =>
+         match b.drop i with
+         | [] => False                                  -- :471 `containers[0]`
+         | first :: _ =>
+           if sh = eh then first.store.Safe_containsRange sl el          -- :471
+           else
+             first.store.Safe_containsRange sl 65535                     -- :484
+             ∧ 1 ≤ eh - sh                                               -- :483 `[first, rest @ .., last]`: at least 2 items (:488 `unreachable!`)
+             ∧ (match (b.drop i)[eh - sh]? with
+                | some last => last.store.Safe_containsRange 0 el        -- :486 (:478 `&containers[..=high_span]` is in range: `get` was `Some`)
+                | none => True))
+
+instance (b : Bitmap) (lo hi : Bound) : Decidable (Safe_containsRange b lo hi) := by
+  unfold Safe_containsRange
+  split
+  · infer_instance
+  · simp only []
+    refine @instDecidableAnd _ _ _ (@instDecidableAnd _ _ _ ?_)
+    split
+    · infer_instance
+    · split
+      · infer_instance
+      · refine @instDecidableIte _ _ _ _ _ ?_
+        refine @instDecidableAnd _ _ _ (@instDecidableAnd _ _ _ ?_)
+        split <;> infer_instance
+
+/-- the `for container in &self.containers[i..]` loop of `range_cardinality` (inherent.rs:542-553) -/
+def Safe_rangeCardLoop (ek el : Nat) : List Container → Nat → Prop
+  | [], _ => True
+  | c :: cs, acc =>
+    if c.key < ek then U64 (acc + c.len) ∧ Safe_rangeCardLoop ek el cs (acc + c.len)   -- :544 `cardinality += container.len()`
+    else if c.key = ek then c.store.Safe_rank el ∧ U64 (acc + c.rank el)                -- :546 `cardinality += container.rank(end_low)`
+    else True
+
+instance (ek el : Nat) : ∀ (cs : List Container) (acc : Nat), Decidable (Safe_rangeCardLoop ek el cs acc)
+  | [], _ => isTrue trivial
+  | c :: cs, acc => by
+    unfold Safe_rangeCardLoop
+    have := instDecidableSafe_rangeCardLoop ek el cs (acc + c.len)
+    infer_instance
+
+/-- inherent.rs:512-556 `range_cardinality` -/
+def Safe_rangeCardinality (b : Bitmap) (lo hi : Bound) : Prop :=
+  match convertRange u32Max lo hi with
+  | .error _ => True
+  | .ok (start, en) =>
+    let sk := hi16 start; let sl := lo16 start
+    let ek := hi16 en; let el := lo16 en
+    Safe_search b sk                                     -- :529 `&self.containers[i]`, :542 `&self.containers[i..]`
+    ∧ (match search b sk with
+       | (true, i) =>
+         match b[i]? with
+         | some c =>
+           let card := if sk = ek then c.rank el else c.len
+           (sk = ek → c.store.Safe_rank el)              -- :531
+           ∧ (sl ≠ 0 →
+                1 ≤ sl                                   -- :536 `start_low - 1` (guarded by :535)
+                ∧ c.store.Safe_rank (sl - 1)
+                ∧ c.rank (sl - 1) ≤ card)                -- :536 `cardinality -= container.rank(start_low - 1)`
+           ∧ i + 1 ≤ b.length                            -- :538 :542 `&self.containers[i + 1..]`
+           ∧ Safe_rangeCardLoop ek el (b.drop (i + 1)) (if sl ≠ 0 then card - c.rank (sl - 1) else card)
+         | none => False                                 -- :529
+       | (false, i) => Safe_rangeCardLoop ek el (b.drop i) 0)
+
+instance (b : Bitmap) (lo hi : Bound) : Decidable (Safe_rangeCardinality b lo hi) := by
+  unfold Safe_rangeCardinality
+  split
+  · infer_instance
+  · simp only []
+    refine @instDecidableAnd _ _ _ ?_
+    split
+    · split <;> infer_instance
+    · infer_instance
+
+/-- inherent.rs:629-631 `len`: `sum()` over `u64` (monotone partial sums) -/
+def Safe_len (b : Bitmap) : Prop := U64 (len b)
+instance (b : Bitmap) : Decidable (Safe_len b) := by unfold Safe_len; infer_instance
+
+/-- inherent.rs:687-704 `rank` -/
+def Safe_rank (b : Bitmap) (v : Nat) : Prop :=
+  Safe_split v ∧ Safe_search b (hi16 v)                 -- :690, :699 `get_unchecked(i)`, :700 :702 `self.containers[..i]`
+  ∧ (match search b (hi16 v) with
+     | (true, i) =>
+       (match b[i]? with
+        | some c => c.store.Safe_rank (lo16 v) ∧ U64 (c.rank (lo16 v) + len (b.take i))   -- :699-700 `rank(index) + sum::<u64>()`
+        | none => False)
+     | (false, i) => U64 (len (b.take i)))              -- :702 `sum()`
+
+instance (b : Bitmap) (v : Nat) : Decidable (Safe_rank b v) := by
+  unfold Safe_rank
+  refine @instDecidableAnd _ _ _ (@instDecidableAnd _ _ _ ?_)
+  split
+  · split <;> infer_instance
+  · infer_instance
+
+/-- inherent.rs:724-739 `select` -/
+def Safe_select : Bitmap → Nat → Prop
+  | [], _ => True
+  | c :: cs, n =>
+    if c.len > n then
+      U16 n                                             -- :732 `n as u16` is lossless
+      ∧ c.store.Safe_select n
+    else
+      c.len ≤ n                                         -- :735 `n -= len` (guarded by :729)
+      ∧ Safe_select cs (n - c.len)
+
+instance : ∀ (b : Bitmap) (n : Nat), Decidable (Safe_select b n)
+  | [], _ => isTrue trivial
+  | c :: cs, n => by
+    unfold Safe_select
+    have := instDecidableSafe_select cs (n - c.len)
+    infer_instance
+
+/-- inherent.rs:756-776 `remove_smallest`: the caller side of `Container::remove_smallest` / `ArrayStore::remove_smallest` -/
+def Safe_removeSmallest : Bitmap → Nat → Prop
+  | [], _ => True
+  | c :: cs, n =>
+    if c.len ≤ n then Safe_removeSmallest cs (n - c.len)      -- :761 `n -= container_len` (guarded by :760)
+    else (n > 0 → c.Safe_removeSmallest n)                    -- :774 `self.containers[0].remove_smallest(n)` with `0 < n < container.len()`
+
+instance : ∀ (b : Bitmap) (n : Nat), Decidable (Safe_removeSmallest b n)
+  | [], _ => isTrue trivial
+  | c :: cs, n => by
+    unfold Safe_removeSmallest
+    have := instDecidableSafe_removeSmallest cs (n - c.len)
+    infer_instance
+
+/-- the `rposition` scan of `remove_biggest` over the reversed container list -/
+def Safe_removeBiggestRev : List Container → Nat → Prop
+  | [], _ => True
+  | c :: cs, n =>
+    if c.len ≤ n then Safe_removeBiggestRev cs (n - c.len)    -- :796 `n -= container_len` (guarded by :795)
+    else (n > 0 → c.Safe_removeBiggest n)                     -- :806 `self.containers[position].remove_biggest(n)`
+
+instance : ∀ (b : List Container) (n : Nat), Decidable (Safe_removeBiggestRev b n)
+  | [], _ => isTrue trivial
+  | c :: cs, n => by
+    unfold Safe_removeBiggestRev
+    have := instDecidableSafe_removeBiggestRev cs (n - c.len)
+    infer_instance
+
+/-- inherent.rs:791-811 `remove_biggest` (:804 `drain(position + 1..)` with `position < len`) -/
+def Safe_removeBiggest (b : Bitmap) (n : Nat) : Prop := Safe_removeBiggestRev b.reverse n
+instance (b : Bitmap) (n : Nat) : Decidable (Safe_removeBiggest b n) := by unfold Safe_removeBiggest; infer_instance
+
+/-- the running `offset: u32` of `serialize_into` (serialization.rs:75-86), including its value after the last container -/
+def Safe_offsetLoop : Bitmap → Nat → Prop
+  | [], _ => True
+  | c :: cs, off =>
+    let sz := match c.store with
+      | .array v => v.length * 2
+      | .bitmap _ => 8 * 1024
+    (match c.store with
+     | .array v => U32 v.length ∧ U32 (v.length * 2)    -- :80 `values.len() as u32 * 2`
+     | .bitmap _ => True)
+    ∧ U32 (off + sz)                                    -- :80 :83 `offset += …`
+    ∧ Safe_offsetLoop cs (off + sz)
+
+instance : ∀ (b : Bitmap) (off : Nat), Decidable (Safe_offsetLoop b off)
+  | [], _ => isTrue trivial
+  | c :: cs, off => by
+    unfold Safe_offsetLoop
+    have := fun o => instDecidableSafe_offsetLoop cs o
+    simp only []
+    refine @instDecidableAnd _ _ ?_ _
+    split <;> infer_instance
+
+/-- serialization.rs:66-101 `serialize_into` -/
+def Safe_serialize (b : Bitmap) : Prop :=
+  U32 b.length ∧ U32 (8 + 8 * b.length)                 -- :68 `self.containers.len() as u32`, :75 `8 + 8 * self.containers.len() as u32`
+  ∧ (∀ c ∈ b, 1 ≤ c.len ∧ U16 (c.len - 1))             -- :72 `(container.len() - 1) as u16`
+  ∧ Safe_offsetLoop b (8 + 8 * b.length)                -- :75-86
+
+instance (b : Bitmap) : Decidable (Safe_serialize b) := by unfold Safe_serialize; infer_instance
+
+/-- serialization.rs:35-47 `serialized_size`: the `usize` sum fits even a 32-bit `usize` -/
+def Safe_serializedSize (b : Bitmap) : Prop := U32 (serializedSize b)   -- :40 :41 :43 :46
+instance (b : Bitmap) : Decidable (Safe_serializedSize b) := by unfold Safe_serializedSize; infer_instance
+
+/-- statistics.rs:27-70 `statistics` (the capacity-dependent `n_bytes_*` sums are not modelled) -/
+def Safe_statistics (b : Bitmap) : Prop :=
+  let s := Bitmap.statistics b
+  U32 s.nContainers ∧ U32 s.nArray ∧ U32 s.nBitset      -- :43 :49 :52 `+= 1` on `u32` counters
+  ∧ (∀ c ∈ b, match c.store with | .array v => U32 v.length | .bitmap _ => True)   -- :41 `array.len() as u32`
+  ∧ U32 s.valuesArray                                   -- :41 `n_values_array_containers += array.len() as u32`
+  ∧ U64 s.valuesBitset                                  -- :47
+  ∧ U64 s.cardinality                                   -- :40 :46
+
+instance (b : Bitmap) : Decidable (Safe_statistics b) := by
+  unfold Safe_statistics
+  simp only []
+  refine @instDecidableAnd _ _ _ (@instDecidableAnd _ _ _ (@instDecidableAnd _ _ _ (@instDecidableAnd _ _ ?_ _)))
+  refine @List.decidableBAll _ _ (fun c => ?_) _
+  split <;> infer_instance
+
+end Bitmap
+
+/-! ## `RoaringTreemap` (roaring/src/treemap/inherent.rs, util.rs) -/
+namespace Treemap
+
+/-- treemap/util.rs:4-6 `split`: `(value >> 32) as u32` is lossless (shift amount 32 < 64) -/
+def Safe_split (v : Nat) : Prop := U32 (v >>> 32)
+instance (v : Nat) : Decidable (Safe_split v) := by unfold Safe_split; infer_instance
+
+/-- treemap/util.rs:9-11 `join`: `u64::from(high) << 32` loses no bit -/
+def Safe_join (hi lo : Nat) : Prop := U64 (hi <<< 32) ∧ U64 (join hi lo)
+instance (hi lo : Nat) : Decidable (Safe_join hi lo) := by unfold Safe_join; infer_instance
+
+/-- treemap/inherent.rs:327-329 `len`: `.map(RoaringBitmap::len).sum()` over `u64` -/
+def Safe_len (t : Treemap) : Prop := U64 (Treemap.len t)
+instance (t : Treemap) : Decidable (Safe_len t) := by unfold Safe_len; infer_instance
+
+/-- treemap/inherent.rs:389-399 `rank`: the `u64` sum -/
+def Safe_rank (t : Treemap) (v : Nat) : Prop := Safe_split v ∧ U64 (Treemap.rank t v)
+instance (t : Treemap) (v : Nat) : Decidable (Safe_rank t v) := by unfold Safe_rank; infer_instance
+
+/-- treemap/inherent.rs:418-428 `select` -/
+def Safe_select : Treemap → Nat → Prop
+  | [], _ => True
+  | (key, bitmap) :: t, n =>
+    if Bitmap.len bitmap > n then
+      U32 n                                             -- :422 `n as u32` is lossless
+      ∧ (Bitmap.select bitmap n).isSome = true          -- :422 `.unwrap()`
+      ∧ Safe_join key ((Bitmap.select bitmap n).getD 0) -- :422 `(key as u64) << 32 | …`
+    else
+      Bitmap.len bitmap ≤ n                             -- :424 `n -= len` (guarded by :421)
+      ∧ Safe_select t (n - Bitmap.len bitmap)
+
+instance : ∀ (t : Treemap) (n : Nat), Decidable (Safe_select t n)
+  | [], _ => isTrue trivial
+  | (key, bitmap) :: t, n => by
+    unfold Safe_select
+    have := instDecidableSafe_select t (n - Bitmap.len bitmap)
+    infer_instance
+
+end Treemap
 end Roaring
